@@ -203,8 +203,10 @@ def inline_function_calls(raw, lookup, should_inline, max_rounds=6):
             callee = lookup(path)
             if callee is None or callee is raw or callee["path"] == raw["path"] or not should_inline(callee):
                 continue
-            if callee.get("asyncness") or callee.get("coroutine"):
+            if callee.get("coroutine"):
                 continue
+            # an `async fn` body in MIR is only the shell that builds the coroutine value: splicing it
+            # leaves `coroutine<callee::{closure#0}>[captures]` in the caller, as an `async move` block would
             if len(t["args"]) != callee["arg_count"]:
                 continue
             loff, boff, rets = sp_.splice_body(callee, t["sp"])
